@@ -1,4 +1,5 @@
 import St4sd.Model.Repl
+import St4sd.Model.ReplConf
 /-!
 Witnesses for C03: the textual rewriting of the **unrepaired** `compile_component_replica`
 (`replicaTextOld`: `str.replace` of the long and the short spelling of every replicated reference over
@@ -49,5 +50,37 @@ theorem new_cross_stage :
 theorem old_direct :
     String.ofList (replicaTextOld d1 c1 0 "data/A:ref".toList) = "data/stage0.A0:ref" ∧
     String.ofList (replicaText d1 c1 0 "data/A:ref".toList) = "data/A:ref" := by decide
+
+/-! ## a stale unreplicated snapshot (NOT the code: `Repl.parametrizeStale`)
+
+If `_initialize` took the `_unreplicated` snapshot only the first time, a configuration that was loaded
+without user variables and is then parametrised with `points: 4` (what `WorkflowGraph.graphFromPackage`
+does with the configuration of an already loaded package) would still expand to the package default of 2
+copies; the modelled code (`Repl.parametrize`, theorem `C03.history_irrelevant`) gives 4.  The harness
+drives such histories on the real configuration object (`kind: history`). -/
+
+def docW : Doc :=
+  { g := [("points".toList, "2".toList)], st := fun _ => [],
+    wf := [{ stage := 0, name := "sample".toList, refs := [], vars := [], replicate := .var "points".toList,
+             aggregate := .absent }] }
+def u4 : UserVars := ⟨[("points".toList, "4".toList)], []⟩
+def confW : Conf := { orig := docW, unrepl := docW, concrete := .primitive docW }
+def namesOf : Concrete → List String
+  | .replicated (.ok out) => out.map fun o => String.ofList o.name
+  | _ => []
+
+theorem stale_snapshot_ignores_reparametrisation :
+    namesOf (parametrizeStale false (parametrizeStale true confW ⟨[], []⟩ true) u4 false).concrete =
+      ["sample0", "sample1"] ∧
+    namesOf (run (construct docW ⟨[], []⟩ true) [(u4, false)]).concrete =
+      ["sample0", "sample1", "sample2", "sample3"] := by decide
+
+/-- a component that defines `replica` itself: if its own variables were layered OVER the injected index
+(`{'replica': i}.update(own)`) every copy would see the same value; `copyVars` (the code) gives `i` -/
+theorem own_replica_over_injected_breaks_index :
+    (List.range 3).map (fun i => (lookup (override [(replicaKey, natToDigits i)] [(replicaKey, "0".toList)]) replicaKey).map
+      String.ofList) = [some "0", some "0", some "0"] ∧
+    (List.range 3).map (fun i => (lookup (copyVars [(replicaKey, "0".toList)] i) replicaKey).map String.ofList) =
+      [some "0", some "1", some "2"] := by decide
 
 end St4sd.C03.Witness
